@@ -1,7 +1,8 @@
 From Coq Require Import Extraction ExtrOcamlBasic.
-From PV Require Import Base.Bytes Base.Outcome Base.DrvBase Model.TxBuild Model.DecimalConv.
+From PV Require Import Base.Bytes Base.Outcome Base.DrvBase Model.TxBuild Model.TxBuildWire Model.DecimalConv.
 Extraction "../ml/c13.ml" drv_base
   split_with_remainder recommended_fee distribute_from_split_pool create_tx
+  stream_len recommended_fee_for_tx distribute_wire create_tx_wire
   total_out total_in fee tx_is_coinbase txin_is_coinbase validate_unspents
   distribute_from_split_pool_st set_unspents_st unspents_from_db_st step run
   dec_mul dec_div dec_quantize dec_to_int dec_fix ndigits
